@@ -12,10 +12,19 @@ const char *kNames[F_NUM_KINDS] = {"trunc",  "setbyte", "set32", "varint",
                                    "splice", "header",  "append", "tamper",
                                    "flipbit"};
 
-const uint32_t kSet32[6] = {0u,          1u,          0x7FFFFFFFu,
-                            0x80000000u, 0xFFFFFFFFu, 0x00FFFFFFu};
-const uint64_t kVarint[6] = {0ull,          0x7Full,         0x80ull,
-                             1ull << 21,    0x7FFFFFFFull,   0xFFFFFFFFull};
+// Besides the boundary values: counts that make a 32-bit product wrap to a
+// small number, ceil(2^32 / m) for the multipliers decoders use (3 indices per
+// face, 4/8/12 bytes per entry, 5 descriptor bytes per attribute). A guard of
+// the form "m * count > remaining" accepts exactly these.
+constexpr int kNumSet32 = 11;
+const uint32_t kSet32[kNumSet32] = {0u,          1u,          0x7FFFFFFFu, 0x80000000u,
+                                    0xFFFFFFFFu, 0x00FFFFFFu, 0x55555556u, 0x40000000u,
+                                    0x33333334u, 0x20000000u, 0x15555556u};
+constexpr int kNumVarint = 11;
+const uint64_t kVarint[kNumVarint] = {0ull,          0x7Full,       0x80ull,
+                                      1ull << 21,    0x7FFFFFFFull, 0xFFFFFFFFull,
+                                      0x55555556ull, 0x40000000ull, 0x33333334ull,
+                                      0x20000000ull, 0x15555556ull};
 
 struct Ver {
   int major, minor;
@@ -122,8 +131,8 @@ int ApplyFaults(const std::vector<FaultOp> &ops, std::vector<uint8_t> *bytes) {
       case F_SET32: {
         if (!len) break;
         size_t o = mod(op.a);
-        uint32_t val = (op.b >= 0 && op.b < 6) ? kSet32[op.b]
-                                               : static_cast<uint32_t>(op.c);
+        uint32_t val = (op.b >= 0 && op.b < kNumSet32) ? kSet32[op.b]
+                                                       : static_cast<uint32_t>(op.c);
         for (int i = 0; i < 4 && o + i < len; ++i)
           v[o + i] = static_cast<uint8_t>(val >> (8 * i));
         break;
@@ -138,7 +147,7 @@ int ApplyFaults(const std::vector<FaultOp> &ops, std::vector<uint8_t> *bytes) {
           if (!(v[o + l - 1] & 0x80)) break;
         }
         std::vector<uint8_t> enc;
-        if (op.b >= 0 && op.b < 6) {
+        if (op.b >= 0 && op.b < kNumVarint) {
           EncodeVarintCanonical(kVarint[op.b], &enc);
         } else {
           // 10-byte overlong encoding of a large value.
@@ -239,8 +248,8 @@ EnumCounts EnumCount(size_t len) {
   EnumCounts c;
   c.trunc = len;
   c.setbyte = len * 7;
-  c.set32 = len * 6;
-  c.varint = len * 14;
+  c.set32 = len * kNumSet32;
+  c.varint = len * (kNumVarint + 1) * 2;
   c.header = len >= 11 ? kHeaderCount : 0;
   return c;
 }
@@ -263,15 +272,16 @@ FaultOp EnumOp(size_t len, uint64_t j) {
   j -= c.setbyte;
   if (j < c.set32) {
     op.kind = F_SET32;
-    op.a = static_cast<int64_t>(j / 6);
-    op.b = static_cast<int64_t>(j % 6);
+    op.a = static_cast<int64_t>(j / kNumSet32);
+    op.b = static_cast<int64_t>(j % kNumSet32);
     return op;
   }
   j -= c.set32;
   if (j < c.varint) {
     op.kind = F_VARINT;
-    op.a = static_cast<int64_t>(j / 14);
-    op.b = static_cast<int64_t>((j % 14) / 2);
+    const uint64_t per = (kNumVarint + 1) * 2;
+    op.a = static_cast<int64_t>(j / per);
+    op.b = static_cast<int64_t>((j % per) / 2);
     op.c = static_cast<int64_t>(j % 2);
     return op;
   }
@@ -327,13 +337,13 @@ std::vector<FaultOp> RandomFaultPlan(
       case 2:
         op.kind = F_SET32;
         op.a = off;
-        op.b = static_cast<int64_t>(r.Below(7));
+        op.b = static_cast<int64_t>(r.Below(kNumSet32 + 1));
         op.c = static_cast<int64_t>(r.Next() & 0xffffffffu);
         break;
       case 3:
         op.kind = F_VARINT;
         op.a = off;
-        op.b = static_cast<int64_t>(r.Below(7));
+        op.b = static_cast<int64_t>(r.Below(kNumVarint + 1));
         op.c = static_cast<int64_t>(r.Below(2));
         break;
       case 4:
